@@ -49,6 +49,7 @@ KidAt(kind, j) ==
     [] kind = "spread"  -> ChSpread(Call("gs" \o N(j), Arr(<<Num(j)>>)))
     [] kind = "spreadarr" -> ChSpread(ArrLit(<<Call("gsa" \o N(j), Num(j)), Member("oc", "y" \o N(j), Num(40 + j))>>))
     [] kind = "objlit"  -> ChExpr(ObjLit(<< <<"default", Arrow(Lit(Num(1)))>>, <<"bar", Call("gob" \o N(j), FnR("ob" \o N(j), Num(2)))>> >>))
+    [] kind = "parencall" -> ChExpr(Wrap("paren", Call("gpc" \o N(j), Num(j))))          \* {(gpc())}: once, like the bare call
     [] kind = "callfn"  -> ChExpr(Call("gcf" \o N(j), FnR("cf" \o N(j), Arr(<<Num(j)>>))))       \* a call whose value is a slot function
     [] kind = "identfn" -> ChExpr(Ident("cif" \o N(j), FALSE, FnR("if" \o N(j), Arr(<<Num(j)>>))))
     [] kind = "elem"    -> ChElem(Inner("e" \o N(j)))
